@@ -720,6 +720,7 @@ func generate(c *Ctx) []Replay {
 		s := r.PickStr(`{"Query":"show pipes"}`, `{"name":"p","tagsCond":"a=b"}`, `{"Query":1}`, `[`, `{"Query":"\ud800"}`, "", "null", `{"Query":{"a":[`+strings.Repeat("[", 200))
 		add("jsonreq", []byte(mutateText(r, s, []byte("{}[]\":,\\\x80"))))
 	}
+	genAdmin(r, add, c.N(40))
 	return jobs
 }
 
